@@ -1,0 +1,13 @@
+//go:build !verif
+
+package engine
+
+import "context"
+
+func verifStep(context.Context, int) {}
+
+func verifCut(int, int) {}
+
+func verifRecover(int, int, bool) {}
+
+func verifOp(opcode) {}
